@@ -237,10 +237,10 @@ def main():
     byid = dict((b["id"], b) for b in bases)
     core = setup(batch["cwd"])
     from amoco.system.core import DataIO
-    seed, cpu = batch["seed"], batch["cpu"]
+    cpu = batch["cpu"]
     out = open(sys.argv[2], "a")
     for ci, case in batch["cases"]:
-        data = c20.concretise(case, byid, seed)
+        data = c20.concretise(case, byid)
         rec = {"c": ci, "len": len(data), "sha": hashlib.sha1(data).hexdigest()[:16]}
         out.write(json.dumps({"c": ci, "begin": 1}) + "\n")
         out.flush()
